@@ -79,6 +79,8 @@ def mk_field(base, name):
         return base[1][int(name)]
     if base[0] == "ite":
         return mk_ite(base[1], mk_field(base[2], name), mk_field(base[3], name))
+    if base[0] == "mut" and len(base) == 4 and base[3] and base[3][0] != name:
+        return mk_field(base[1], name)       # the in-place update concerned a different field
     return ("field", base, name)
 
 
@@ -105,8 +107,12 @@ def subterms(t):
         x = stack.pop()
         if not isinstance(x, tuple):
             continue
-        yield x
-        for y in x[1:]:
+        if x and isinstance(x[0], str):
+            yield x
+            rest = x[1:]
+        else:
+            rest = x                    # a container of terms (argument tuple, switch arms, ...)
+        for y in rest:
             if isinstance(y, tuple):
                 stack.append(y)
 
@@ -319,8 +325,9 @@ class Evaluator:
         for p in self.fn.params:
             self._bind_param(p, env)
         self.st = State(env)
+        self._tail_done = False
         v = self.expr(self.fn.body)
-        if self.st is not None:
+        if self.st is not None and not self._tail_done:
             self._ret(v, self.fn.body, "tail")
         self.summ.ret = mk_join([r[0] for r in self.summ.returns if r[5] != "try"])
         return self.summ
@@ -438,6 +445,9 @@ class Evaluator:
             val = self.expr(n["expr"])
         elif self.st is None:
             val = NEVER
+        if n is self.fn.body and self.st is not None:
+            self._ret(val, n, "tail")          # recorded here: the conditions known at the end of the body still hold
+            self._tail_done = True
         del self.pc[saved_pc:]
         return val
 
@@ -728,7 +738,7 @@ class Evaluator:
                 r = self.root_local(an)
                 if r and r[0] in self.st.env:
                     old = self.st.env[r[0]]
-                    self.st.env[r[0]] = ("mut", old, ("call", callee, tuple(a for j, a in enumerate(args) if j != i)))
+                    self.st.env[r[0]] = ("mut", old, ("call", callee, tuple(a for j, a in enumerate(args) if j != i)), r[2])
         if n.get("ty") == "!":
             self.st = None
             return NEVER
@@ -985,7 +995,7 @@ class Evaluator:
                 self.st.env[lid] = v
             else:
                 old = self.st.env.get(lid, ("unk", name))
-                self.st.env[lid] = ("mut", old, ("assign", ".".join(path), v))
+                self.st.env[lid] = ("mut", old, ("assign", ".".join(path), v), path)
         else:
             self.expr(n["l"])
         return UNIT
@@ -1006,7 +1016,7 @@ class Evaluator:
                 self.st.env[lid] = new
             else:
                 o = self.st.env.get(lid, ("unk", name))
-                self.st.env[lid] = ("mut", o, ("assign", ".".join(path), new))
+                self.st.env[lid] = ("mut", o, ("assign", ".".join(path), new), path)
         return UNIT
 
     def e_ret(self, n):
@@ -1017,6 +1027,7 @@ class Evaluator:
             # return from a closure body: not a function exit
             self.st = None
             return NEVER
+        self._site(node=n, kind="return", name="return", args=[v], argnodes=[n.get("e")])
         self._ret(v, n, "return")
         self.st = None
         return NEVER
@@ -1026,6 +1037,7 @@ class Evaluator:
         if self.st is None:
             return NEVER
         frame = self._frame(n)
+        self._site(node=n, kind="break", name="break", args=[v], argnodes=[n.get("e")], term=("loop", frame[0] if frame else None))
         if frame is not None:
             frame[1].append(self.st)
         self.st = None
@@ -1033,6 +1045,7 @@ class Evaluator:
 
     def e_continue(self, n):
         frame = self._frame(n)
+        self._site(node=n, kind="continue", name="continue", args=[], argnodes=[], term=("loop", frame[0] if frame else None))
         if frame is not None:
             frame[2].append(self.st)
         self.st = None
